@@ -171,6 +171,11 @@ def sym(ctx, cfg):
             df2["F"] = [SNum(z) for z in zg]
         psms2 = D.LinearPsmDataset(df2, target_column="Label", spectrum_columns="spec", peptide_column="pep", feature_columns=(["F"] if twin else []) + ["f", "rowid"], copy_data=True)
         pred = model.predict(psms2)
+        if cfg.get("again"):
+            # one trained model scores several tables one after the other whose feature columns come in
+            # different orders: (f, rowid) above, now (rowid, f); the last matrix handed to the estimator is checked
+            psms_a = D.LinearPsmDataset(df, target_column="Label", spectrum_columns="spec", peptide_column="pep", feature_columns=list(feats), copy_data=True)
+            pred = model.predict(psms_a)
         pred2 = None
         if cfg.get("roundtrip"):
             # save / load_model: pickle is modelled by copy.deepcopy, which drives the same
@@ -230,9 +235,10 @@ def sym(ctx, cfg):
                     M.__dict__.pop("open", None)
                 else:
                     M.open = saved[0]
-            df3 = sympd.DataFrame({"f": [SNum(z) for z in zf], "spec": list(range(n)), "Label": [SBool(z) for z in zt], "pep": ["PEP%d" % i for i in range(n)],
-                                   "rowid": list(range(n))})
-            psms3 = D.LinearPsmDataset(df3, target_column="Label", spectrum_columns="spec", peptide_column="pep", feature_columns=["f", "rowid"], copy_data=True)
+            # the re-loaded model scores a table in the TRAINING column order (rowid, f), the model itself has just scored (f, rowid)
+            df3 = sympd.DataFrame({"spec": list(range(n)), "Label": [SBool(z) for z in zt], "pep": ["PEP%d" % i for i in range(n)],
+                                   "rowid": list(range(n)), "f": [SNum(z) for z in zf]})
+            psms3 = D.LinearPsmDataset(df3, target_column="Label", spectrum_columns="spec", peptide_column="pep", feature_columns=["rowid", "f"], copy_data=True)
             pred2 = loaded.predict(psms3)
     except Unsupported:
         raise
@@ -358,6 +364,10 @@ def harnesses(tier):
                           bounds=dict(N=4, max_iter=1, fits=2), stubs=stubs, assumptions=["0 < train_fdr <= 1"], sample_rate=0.1))
     hs.append(Harness("fit[n=2,iters=1,direction=f,features f and F differing only in case]", dict(n=2, iters=1, direction="f", proba=0, case_twin=True, shuffle=False), sym, real="fit", functions=funcs,
                       bounds=dict(N=2, max_iter=1, features=3), stubs=stubs, assumptions=["0 < train_fdr <= 1"], sample_rate=0.6))
+    hs.append(Harness("fit[n=2,iters=1,direction=f,scaler with per-feature parameters,two tables with different column orders scored one after the other]",
+                      dict(n=2, iters=1, direction="f", proba=0, scaler=True, again=True, shuffle=False), sym, real="fit", functions=funcs,
+                      bounds=dict(N=2, max_iter=1, predictions=2), stubs=stubs + ["scaler -> per-column affine map fitted in training column order (stands for StandardScaler)"],
+                      assumptions=["0 < train_fdr <= 1"], sample_rate=0.6))
     if tier == "quick":
         # three targets and a decoy: the smallest table on which two label sets can accept the same NUMBER of
         # targets but different targets (with N = 3 every q-value is 1/2 or 1)
@@ -505,6 +515,9 @@ def real_fit(cfg, inp):
         df2 = df[(["F"] if twin else []) + ["f", "spec", "Label", "pep", "rowid"]]
         psms2 = LinearPsmDataset(df2, target_column="Label", spectrum_columns="spec", peptide_column="pep", feature_columns=(["F"] if twin else []) + ["f", "rowid"], copy_data=True)
         pred = model.predict(psms2)
+        if cfg.get("again"):
+            psms_a = LinearPsmDataset(df, target_column="Label", spectrum_columns="spec", peptide_column="pep", feature_columns=list(FEATS) + (["F"] if twin else []), copy_data=True)
+            pred = model.predict(psms_a)
         rt_violation = None
         if cfg.get("roundtrip"):
             import tempfile
@@ -514,7 +527,7 @@ def real_fit(cfg, inp):
                 try:
                     model.save(Path(d) / "model.pkl")
                     loaded = mokapot.load_model(Path(d) / "model.pkl")
-                    psms3 = LinearPsmDataset(df2, target_column="Label", spectrum_columns="spec", peptide_column="pep", feature_columns=["f", "rowid"], copy_data=True)
+                    psms3 = LinearPsmDataset(df[["spec", "Label", "pep", "rowid", "f"]], target_column="Label", spectrum_columns="spec", peptide_column="pep", feature_columns=["rowid", "f"], copy_data=True)
                     pred2 = loaded.predict(psms3)
                     if len(pred2) != len(pred) or not np.allclose(np.asarray(pred2, dtype=float), np.asarray(pred, dtype=float), atol=1e-12):
                         rt_violation = "the model saved and loaded again predicts %s, the model itself predicted %s" % (np.asarray(pred2).tolist(), np.asarray(pred).tolist())
